@@ -99,7 +99,10 @@ def same_value(model_tok: str, impl, mode: str = "exact") -> bool:
     if math.isnan(f) or math.isinf(f):
         return False
     if mode == "exact" or Fraction(f) == m:
-        return Fraction(f) == m
+        if Fraction(f) == m:
+            return True
+        # a floating result dtype cannot hold every integer beyond 2**53: the correctly rounded value is exact enough
+        return isinstance(impl, (float, np.floating)) and abs(m) > 2**53 and f == float(m)
     if mode == "rounded":
         ref = float(m)
         return f == ref or abs(f - ref) <= 2 * math.ulp(ref)
